@@ -49,7 +49,7 @@ def calib(cell):
             out.append({'msg': f'sensitivity off: velocity at {q} C = {got}, stated {v0}', 'key': None})
             break
     # enabled with a stated modifier: linear and anchored
-    for mod in (0.0, 0.015, -0.01):
+    for mod in (0.0, 0.015, -0.01, 1.5, -1.2, 1.0):      # a modifier is a fraction per 15 C, whatever its size
         a = pb.Ammo(dm, FPS(v0), U(t0u)(t0), temp_modifier=mod, use_powder_sensitivity=True)
         for q in QUERY_C + [t0c]:
             n += 1
@@ -93,7 +93,7 @@ def calib(cell):
         n += 1
         a_r = pb.Ammo(dm, FPS(v0), U(t0u)(t0), temp_modifier={'stated 0.02': 0.02, 'stated -0.01': -0.01}.get(pre, 0.0), use_powder_sensitivity=True)
         if pre == 'calibrated before with another measurement':
-            a_r.calc_powder_sens(FPS(v0 - 0.5 * dv + 7.0), temp(t1c + 3.0))
+            a_r.calc_powder_sens(FPS(v0 - 0.5 * dv + 7.0), temp(t1c + (3.0 if abs(t1c + 3.0 - t0c) > 0.1 else 4.5)))      # (never the baseline temperature itself)
         if pre == 'calibrated twice':
             a_r.calc_powder_sens(FPS(v0 + dv), temp(t1c))
         m_r = a_r.calc_powder_sens(FPS(v0 + dv), temp(t1c))
@@ -179,7 +179,24 @@ def launch(cell):
                                f'there (allowed {bound * 12:.4f} in): zeroing did not launch with the velocity for the powder temperature', 'key': None})
     except (pb.RangeError, pb.ZeroFindingError):
         pass
-    return {'v': out, 'n': 4, 'nt': cell if (on and mod and want_pt != t0c) else None, 'obs': [on, powder_c is None]}
+    # the SAME shot object goes on living: another atmosphere is assigned to it (colder day), then another ammunition - every computation launches
+    # with the velocity for what the shot holds NOW
+    for step in ('atmo', 'ammo', 'enable'):
+        if step == 'atmo':
+            shot.atmo = pb.Atmo(pb.Unit.Foot(0), pb.Unit.InHg(29.92), C(air_c - 22.0), 0.0)
+            now_pt, now_ammo = air_c - 22.0, ammo
+        elif step == 'ammo':
+            now_ammo = pb.Ammo(pb.DragModel(0.3, pb.TableG7), FPS(v0 - 100.0), C(t0c + 5.0), temp_modifier=0.03, use_powder_sensitivity=True)
+            shot.ammo = now_ammo
+        else:
+            now_ammo.use_powder_sensitivity = not now_ammo.use_powder_sensitivity
+        got2 = pb.Calculator().fire(shot, pb.Unit.Foot(3), pb.Unit.Foot(1)).trajectory[0].velocity >> FPS
+        a_ = now_ammo
+        exp2 = (a_.mv >> FPS) * (1 + a_.temp_modifier * (now_pt - (a_.powder_temp >> C)) / 15.0) if a_.use_powder_sensitivity else (a_.mv >> FPS)
+        if abs(got2 - exp2) > 1e-9 * v0:
+            out.append({'msg': f'the same shot object after a new {step} was assigned / switched: launch speed {got2!r}, the line of what the shot holds now gives {exp2!r}', 'key': None})
+            break
+    return {'v': out, 'n': 7, 'nt': cell if (on and mod and want_pt != t0c) else None, 'obs': [on, powder_c is None]}
 
 
 def edit(cell):
@@ -239,7 +256,7 @@ def plan(tier):
     v0s = V0[:2] if tier == 'quick' else V0
     t0s = T0[:3] if tier == 'quick' else T0
     dvs = DV if tier == 'thorough' else [-60.0, -20.0, 20.0, 60.0]
-    dts = DT if tier == 'thorough' else [-25.0, -15.0, 10.0, 30.0]
+    dts = DT if tier == 'thorough' else [-25.0, -15.0, 10.0, 30.0, 0.5]       # 0.5 C apart: a steep line (modifier > 1)
     cal = [list(c) for c in itertools.product(v0s, t0s, dvs, dts, TUNITS)]
     sm = [[v, w] for v in v0s for w in ('v', 'T', 'both')]
     la = [list(c) for c in itertools.product([0.0, 0.015, -0.01], v0s, [15.0, 0.0], [15.0, -20.0, 35.0], [None, 15.0, 40.0, 0.0],
